@@ -146,10 +146,11 @@ fn c01_judge(case: &Case, run: &Run, an: &Analysis, stats: &mut Stats) -> CheckR
     }
   }
   if nontrivial { stats.nontrivial(fingerprint(case)); sample(case, stats); }
-  fail_on(an, &["c01-output", "c01-state", "panic-internal", "missed-violation"])
+  if case.prog.panicky && an.builds.iter().any(|b| b.panic.is_some()) { stats.class("case_with_task_panic_abort"); }
+  fail_on(an, &["c01-output", "c01-state", "panic-internal", "missed-violation", "missed-task-panic"])
 }
 
-fn c01_cfg(t: Tier) -> GenCfg { GenCfg::for_tier(t) }
+fn c01_cfg(t: Tier) -> GenCfg { let mut c = GenCfg::for_tier(t); c.task_panic_share = 2; c }
 
 pub const C01: Spec = Spec {
   prop: "C01",
@@ -175,6 +176,7 @@ fn exact_only(p: &Program) -> bool {
       Stmt::Read { chk, .. } | Stmt::Write { chk, .. } => *chk == RChk::Exact,
       Stmt::Require { chk, .. } => matches!(chk, OChk::Equals | OChk::IEquals),
       Stmt::If { then, els, .. } => block(then) && block(els),
+      Stmt::PanicIf { .. } => true,
     })
   }
   p.tasks.iter().all(|t| block(&t.body))
@@ -194,7 +196,8 @@ fn c02_judge(case: &Case, run: &Run, an: &Analysis, stats: &mut Stats) -> CheckR
   // I4: probes execute nothing.
   for b in &an.builds {
     if let BuildKind::Probe(t) = b.kind {
-      if !b.executed.is_empty() {
+      // Only for probes that return: a root whose build aborts (task failure) aborts again and re-runs the failing task.
+      if b.panic.is_none() && !b.executed.is_empty() {
         return Err(Failure::new(format!("[I4-idempotence] session {}: requiring T{} again with nothing changed executed {:?}", b.session, t, b.executed)));
       }
     }
@@ -204,7 +207,7 @@ fn c02_judge(case: &Case, run: &Run, an: &Analysis, stats: &mut Stats) -> CheckR
   Ok(())
 }
 
-fn c02_cfg(t: Tier) -> GenCfg { GenCfg::for_tier(t) }
+fn c02_cfg(t: Tier) -> GenCfg { let mut c = GenCfg::for_tier(t); c.task_panic_share = 2; c }
 
 pub const C02: Spec = Spec {
   prop: "C02",
@@ -424,6 +427,9 @@ pub fn c17_judge(case: &Case, run: &Run, an: &Analysis, stats: &mut Stats) -> Ch
 fn c17_cfg(t: Tier) -> GenCfg {
   let mut c = bu_cfg(t);
   c.bottom_up_weight = 3;
+  // Checker errors at validation time are part of the event stream too.
+  c.faulty = true;
+  c.fault_steps = true;
   c
 }
 
@@ -707,6 +713,7 @@ fn c08_cfg(t: Tier) -> GenCfg {
   let mut c = bu_cfg(t);
   c.bottom_up_weight = 3;
   c.multi_checker_share = 2;
+  c.task_panic_share = 2;
   c
 }
 
